@@ -164,6 +164,25 @@ def run(ctx):
         if ctx.violations >= 3: break
     ctx.note("phase B: runs=%d ops=%d deadlocks=%d bad=%d replayed=%d" % (T.runs, T.ops, T.dead, T.bad, T.replayed))
 
+    # ---- phase B': the same under ASan+UBSan (thorough only) --------------------------------------------------------------
+    if not quick and ctx.violations == 0:
+        exs = build(ctx, "san")
+        if not exs:
+            ctx.tie_ok = False; ctx.broken.append({"kind": "sanitizer build of the scheduler harness failed"})
+        else:
+            for k in range(8):
+                nF = 2 + (k + seed) % 7; nneg = (k * 3 + seed) % (nF + 1)
+                p = get_prob(ctx, exs, 77000 * seed + k, nF, nneg)
+                if not p: ctx.tie_ok = False; ctx.broken.append({"kind": "sanitizer harness failed on P"}); break
+                cmds = ["P %d %d %d" % (p["pseed"], nF, nneg)]
+                for n in (1, 2, 3, 5, p["m"] + 1):
+                    cmds += ["RUN %d np" % n, "RUN %d rand %d" % (n, seed + k), "RUN %d pct %d 3" % (n, seed + 3 * k), "RUN %d delayc 1" % n]
+                rc, out, err = harness(ctx, exs, cmds)
+                if rc != 0: return crash(ctx, rc, err, "sanitizer build, problem %s" % p)
+                check_runs(ctx, T, p, out, "seeded schedule (ASan+UBSan build)")
+            dist["sanitizer_pass"] = True
+            ctx.note("phase B': sanitizer build runs done, total runs=%d" % T.runs)
+
     # ---- phase C: model -> code: schedules covering every explored transition of the model -----------------------------
     configs = [(1, 1), (1, 2), (2, 1), (2, 2)] if quick else [(n, b) for n in (1, 2, 3) for b in (1, 2, 3)]
     cap = 1500 if quick else 12000
